@@ -2,8 +2,8 @@ import QP.Base
 /-!
 # C15 — volatile repetition counts: marking, update, merge
 
-Model of the code that exists (with the one-line repair PF-07 of `JointScope.get_volatile_parameters`
-applied, see `fixes/PF-07.diff`):
+Model of the code that exists (with the repairs PF-07 of `JointScope.get_volatile_parameters` and PF-C15d of the
+merge product applied, see `fixes/`):
 
 * `Expr`                — integer count expressions as sympy hands them over (`Add/Mul/Pow/Integer/Symbol`)
 * `Scope`               — `DictScope | MappedScope | RangeScope | JointScope` (the joint scope in the binary
@@ -33,6 +33,7 @@ inductive Expr where
   | sub (a b : Expr)
   | mul (a b : Expr)
   | pow (a : Expr) (k : Nat)
+  | max0 (a : Expr)              -- `Max(0, a)` (the clamped factors of the merge product)
   deriving Repr, BEq, DecidableEq, Inhabited
 
 /-- `evaluate_in_scope`: `none` = a variable is missing (`ParameterNotProvidedException`) -/
@@ -51,6 +52,9 @@ def Expr.eval (env : Name → Option Int) : Expr → Option Int
   | .pow a k => match a.eval env with
       | some x => some (x ^ k)
       | none => none
+  | .max0 a => match a.eval env with
+      | some x => some (if x < 0 then 0 else x)
+      | none => none
 
 /-- `Expression.variables` -/
 def Expr.vars : Expr → List Name
@@ -60,6 +64,7 @@ def Expr.vars : Expr → List Name
   | .sub a b => a.vars ++ b.vars
   | .mul a b => a.vars ++ b.vars
   | .pow a _ => a.vars
+  | .max0 a => a.vars
 
 /-! ## scopes -/
 
@@ -168,7 +173,7 @@ def RepDef.prod (p c : RepDef) : RepDef :=
   | .const a, .vol e s => .vol (.mul e (.lit a)) s
   | .vol e s, .const b => .vol (.mul e (.lit b)) s
   | .vol ep sp, .vol ec sc =>
-      .vol (.mul (.var pn) (.var cn)) (.joint (.mapped sp [(pn, ep)]) (.mapped sc [(cn, ec)]))
+      .vol (.mul (.max0 (.var pn)) (.max0 (.var cn))) (.joint (.mapped sp [(pn, ep)]) (.mapped sc [(cn, ec)]))
 
 /-- dependency roots of a count: the volatile top-level parameters it depends on -/
 def RepDef.roots : RepDef → List Name
@@ -437,6 +442,8 @@ partial def parseExpr : Sexp → Option Expr
       let x ← parseExpr x; let y ← parseExpr y; pure (.sub x y)
   | .list [.atom "^", x, .atom k] => do
       let x ← parseExpr x; let k ← k.toNat?; pure (.pow x k)
+  | .list [.atom "max0", x] => do
+      let x ← parseExpr x; pure (.max0 x)
   | _ => none
 
 def parseName : Sexp → Option Name
